@@ -53,6 +53,7 @@ SITES = [
     (P + "semantic/module.rs", "hash-iter", "into_exprs:names.into_iter", "inv:map_values", "perm_invariant_map_values", "", "re-collected into a map"),
     (P + "semantic/reporting.rs", "hash-iter", "label_module:names.iter", "nooutput", "", "", "lineage / debug reporting"),
     (P + "semantic/resolver/expr.rs", "hash-iter", "construct_tuple_from_module:names.iter +sorted", "inv:sort_by_key", "perm_invariant_sort_by_key", "", ".sorted_by_key(order); distinct orders ASSUMED (if two declarations shared an order their iteration order would survive: sort_by_key_with_shared_key_order_dependent); no variation observed"),
+    (P + "semantic/resolver/transforms.rs", "hash-iter", "apply_assign:e_e.difference +sorted", "inv:sort", "perm_invariant_sort", "", "columns left when two wildcards of one input cancel (`select !{!{a, b}}`): .difference(..).sorted() before they are pushed"),
     (P + "semantic/resolver/functions.rs", "hash-iter", "apply_args_to_closure:named_args.into_keys", "inv:min", "c11_perm_invariant_apply_args_to_closure", "", ".into_keys().min(): the alphabetically first leftover argument is named (was F10)"),
     (P + "semantic/resolver/functions.rs", "hash-iter", "resolve_function_args:other.for", "nothash", "", "", "`other` is a Vec here"),
     (P + "semantic/resolver/names.rs", "hash-iter", "ambiguous_error:idents.for +sorted", "inv:sort", "perm_invariant_sort", "", "chunks.sort() before joining"),
